@@ -321,6 +321,10 @@ class Obs(object):
     def _note(self, kind, what):
         t = self.sim.tick()
         self.results.append((t, kind, what))
+        if getattr(self, 'asks_again', False) and len(self.results) == 1:
+            # an observer that asks for the launch result once more from inside its own callback
+            self.sim.trace.append('when_connected from inside a callback')
+            self.sim.add_when()
         if self.sim.first_fire is None:
             self.sim.first_fire = t
         self.sim.trace.append('%s:%s' % (self.kind, kind))
@@ -587,11 +591,13 @@ class Sim(object):
                     return
                 self.t_end = self.tick()
                 self.guarded('processEnded', self.pp.processEnded, self.exit_reason)
-        elif k == 'when':
+        elif k in ('when', 'when_re'):
             if self.pp is None:
                 self.skipped += 1
                 return
             self.add_when()
+            if k == 'when_re' and self.observers and self.observers[-1].kind == 'when' and not self.observers[-1].results:
+                self.observers[-1].asks_again = True
         else:
             raise ValueError('unknown event %r' % (ev,))
 
@@ -753,6 +759,15 @@ class Sim(object):
                          '%s_never_fired_after_%s' % (lab, why),
                          'observed: %s has not fired by the end of the history although the %s before any 100%% report; expected: failure'
                          % (lab, 'process ended' if end_first else 'timeout elapsed'))
+        # once the outcome is known, everybody who asked has been told (also who asked from inside a callback)
+        if any(o.results for o in self.observers if o.kind == 'when'):
+            for o in self.observers:
+                if o.kind == 'when' and not o.results:
+                    self.bad('fires_exactly_once', 'when_connected_never_fired_although_the_outcome_is_known',
+                             'observed: a when_connected() Deferred (handed out at tick %d%s) has not fired by the end of the history although '
+                             'other when_connected() Deferreds fired %r; expected: every hand-out fires exactly once'
+                             % (o.created, ', from inside the callback of another hand-out' if 'when_connected from inside a callback' in self.trace else '',
+                                [x.results[0][1] for x in self.observers if x.kind == 'when' and x.results]))
         # one result for everybody who asked the process protocol
         kinds = set(o.results[0][1] for o in self.observers if o.kind == 'when' and o.results)
         if len(kinds) > 1:
@@ -926,6 +941,11 @@ def systematic(tier):
             for tail in ([E_WHEN, E_TO], [E_B100, EXITS[0]], [EXITS[2]], [E_TO, E_B100, E_WHEN]):
                 n += 1
                 yield 'F7', scenario(n), [E_LISTEN, E_CONN, E_CTL, ['boot', p], ['evt', other]] + tail
+    # F9: an observer that asks again from inside its callback, before each way the outcome can come about
+    for tail in ([E_CONN, E_CTL, E_B100], [E_TO], [EXITS[0]], [E_CONN, E_CTL, E_TO], [E_CONN, EXITS[1]], [E_CONN, E_CTL, E_B100, E_TO, EXITS[2]]):
+        for pre in ([['when_re']], [E_WHEN, ['when_re']], [['when_re'], E_WHEN], [['when_re'], ['when_re']]):
+            n += 1
+            yield 'F9', scenario(n), [E_LISTEN] + pre + tail
     # F8: exited and ended apart, output in between; timeout after the end
     for seq in perms([E_CONN, E_CTL, E_B100, ['exited', 'code', 1], E_TO]):
         n += 1
@@ -950,7 +970,7 @@ def random_history(rnd):
         ['out', rnd.choice([OUT_LISTEN, OUT_B100, OUT_PRE, OUT_LISTEN + OUT_OPENED])],
         ['err', ERR_TEXT], ['conn', 'ok'], ['conn', 'fail'], ['ctl', None], ['ctl', rnd.choice(STOPS)], ['ctl', None, rnd.randint(1, 6)],
         ['boot', rnd.choice([0, 5, 50, 99, 100])], ['evt', rnd.choice(sorted(OTHER_STATUS))],
-        ['tick', rnd.choice([TIMEOUT, TIMEOUT // 2, 1])], ['when'], ['lost', rnd.random() < 0.5],
+        ['tick', rnd.choice([TIMEOUT, TIMEOUT // 2, 1])], ['when'], ['when_re'], ['lost', rnd.random() < 0.5],
         rnd.choice(EXITS), ['exited'] + rnd.choice(EXITS)[1:], ['ended']])
     while len(evs) < n:
         if backbone and rnd.random() < 0.55:
